@@ -146,10 +146,15 @@ def load_raw(repo=REPO, verbose=False):
         raw["meta"]["source_files_hashed"] = nfiles
         raw["meta"]["extract_s"] = round(time.time() - t0, 2)
         raw["meta"]["cache"] = "miss"
-        os.makedirs(cdir, exist_ok=True)
-        with open(pk + ".tmp%d" % os.getpid(), "wb") as fh:
-            pickle.dump(raw, fh, protocol=pickle.HIGHEST_PROTOCOL)
-        os.replace(pk + ".tmp%d" % os.getpid(), pk)
+        # the cache is an optimisation shared by concurrent runs: a failure to store (another process pruned the directory
+        # in between) must not fail the analysis
+        try:
+            os.makedirs(cdir, exist_ok=True)
+            with open(pk + ".tmp%d" % os.getpid(), "wb") as fh:
+                pickle.dump(raw, fh, protocol=pickle.HIGHEST_PROTOCOL)
+            os.replace(pk + ".tmp%d" % os.getpid(), pk)
+        except OSError:
+            pass
         prune_cache(keep=key)
     finally:
         shutil.rmtree(tmp, ignore_errors=True)
@@ -172,7 +177,9 @@ def prune_cache(keep, maxn=6):
                 continue
             ents.append((os.path.getmtime(p), d))
         ents.sort(reverse=True)
-        for _, d in ents[maxn:]:
+        for mt, d in ents[maxn:]:
+            if now - mt < 900:
+                continue            # just written, possibly by a concurrent run that is about to read it
             shutil.rmtree(os.path.join(CACHE, d), ignore_errors=True)
     except OSError:
         pass
